@@ -41,7 +41,7 @@ UPPER_EL = ["E", "H", "D", "HE", "C", "N", "O", "MG", "SI", "S", "CL"]
 UPPER_PS = ["CR", "CRP", "PHOTON", "CRPHOT"]
 UPPER_RP = {"E": "e", "HE": "He", "MG": "Mg", "SI": "Si", "CL": "Cl"}
 
-FOREIGN = ["net_upper", "net_prefixG", "replacement", "binding", "krome", "render_other", "species_only"]
+FOREIGN = ["net_upper", "net_default", "net_prefixG", "replacement", "binding", "krome", "render_other", "species_only"]
 SLOTS = ["before_build", "between_build_and_render", "between_renderings"]
 
 MECH = {
@@ -101,22 +101,31 @@ def make_case(rng, kind):
                                       "HCL,E-,NAN,H,CL,NAN,NAN,3.0e-7,-0.5,0.0,10,41000"]}
         d["formats"] = ["uclchem"]
         d["elements"], d["pseudo_elements"] = list(UPPER_EL), list(UPPER_PS)
+    elif kind == "elements_only":
+        # explicit element list, no pseudo-element list (UCLCHEM marker tokens are not species)
+        d["lines"] = {"net.uclchem": ["H,HE+,NAN,HE,H+,NAN,NAN,1.2e-15,0.25,0.0,10,41000", "MG,H+,NAN,MG+,H,NAN,NAN,1.1e-9,0.0,0.0,10,41000",
+                                      "SIO,HE+,NAN,SI+,O,HE,NAN,8.6e-10,-0.5,0.0,10,41000", "H,H,NAN,H2,NAN,NAN,NAN,1.0e-17,0.5,0.0,10,41000",
+                                      "HCL,E-,NAN,H,CL,NAN,NAN,3.0e-7,-0.5,0.0,10,41000"]}
+        d["formats"] = ["uclchem"]
+        d["elements"] = list(UPPER_EL)
     return d
 
 
-KINDS = ["default_lists", "explicit_lists", "ode_modifier", "ice", "krome", "upper_lists"]
+KINDS = ["default_lists", "explicit_lists", "ode_modifier", "ice", "krome", "upper_lists", "elements_only"]
 
 
 def gen_cases(tier):
     rng = common.rng_for(ID)
-    n = 12 if tier == "quick" else 90
+    n = 14 if tier == "quick" else 98
     cases = []
     for i in range(n):
         r = random.Random(rng.getrandbits(64))
         d = make_case(r, KINDS[i % len(KINDS)])
         sched = [(k, s) for k in FOREIGN for s in SLOTS]
         if tier == "quick":
-            sched = r.sample(sched, 10)
+            # stratified: every description meets a list-installing foreign network at each of the three positions
+            must = [(k, sl) for k in (("net_default",) if d.get("elements") and d["elements"][1:2] != ["E"] and "HE" in d["elements"] else ("net_upper",)) for sl in SLOTS]
+            sched = must + r.sample([x for x in sched if x not in must], 8)
         cases.append({"desc": d, "schedules": sched, "backend": "odeint" if i % 4 == 3 else "dense", "hashseeds": ["0", "1", "2", "random"]})
     return cases
 
@@ -139,7 +148,7 @@ def run_case(case, ctx):
     obs, viol = Counter(), []
     work = ctx.fresh_dir("h")
     d = dict(case["desc"])
-    obs["desc_" + {"upper_lists": "explicit_lists"}.get(d["kind"], d["kind"])] += 1
+    obs["desc_" + {"upper_lists": "explicit_lists", "elements_only": "explicit_lists"}.get(d["kind"], d["kind"])] += 1
     files = []
     for fn, lines in d["lines"].items():
         (work / fn).write_text("\n".join(lines) + "\n")
@@ -155,6 +164,8 @@ def run_case(case, ctx):
         st = {"op": "foreign", "kind": kind}
         if kind == "net_upper":
             st.update(file=str(work / "f_upper.ucl"), elements=UPPER_EL, pseudo=UPPER_PS)
+        elif kind == "net_default":
+            st.update(file=str(work / "f_other.kida"), elements=list(chem.DEFAULT_ELEMENTS), pseudo=["CR", "CRP", "Photon", "PHOTON", "CRPHOT", "o", "p", "m"])
         elif kind == "net_prefixG":
             st.update(file=str(work / "f_leeds.leeds"))
         elif kind == "replacement":
@@ -215,7 +226,7 @@ def run_case(case, ctx):
                 w["mechanism"] = "C17/user-binding-energy-table-is-process-global"
             elif kind == "replacement" and (explicit or slot != "before_build"):
                 w["mechanism"] = "C17/replacement-table-never-reset"
-            elif kind in ("net_upper", "replacement", "species_only", "net_prefixG") and not explicit:
+            elif kind in ("net_upper", "net_default", "replacement", "species_only", "net_prefixG") and not explicit:
                 # a description without explicit element lists means "the default lists"; naunet keeps whatever lists are installed
                 w["mechanism"] = "C17/default-lists-inherited-from-previous-network"
             if res.get("error"):
